@@ -452,6 +452,7 @@ def check(PROP, tier, seed, replay):
            "extract_changed": st.extract_changed}
     if PROP == "C10" and not replay:
         cov["device_teardown"] = device_teardown_probe(v)
+        cov["device_close"] = device_close_probe(v)
     core.write_evidence(PROP, tier, seed, "proof", cov,
                         ["the mock transport honours the transport contract of the real transports (teardown of real descriptors is not exercised)",
                          "termination of close is proved for the model and observed (exact deadlock detection) for the explored schedules of the code",
@@ -499,4 +500,42 @@ def device_teardown_probe(v):
         else:
             v.violation(f"device-stop-{k}", {"kind": "cancelling nng_device instances does not terminate (REAL, inproc)",
                                             "ops": [f"stopall 1 {k}"], "harness": "harness/r_device.c", "detail": detail})
+    return out
+
+
+def device_close_probe(v):
+    """C10 for devices (REAL, inproc): a device owns its sockets while it runs and closes them when it is
+    cancelled; afterwards the socket handles and the listeners derived from them are invalid.  All device
+    shapes, including the one-way forwarders that the repository's tests do not run."""
+    import subprocess, re
+    kinds = ["pipeline", "pubsub", "pair1", "reqrep", "reflector"]
+    try:
+        exe = build.harness("r_devclose", ["r_devclose.c"])
+    except build.BuildError as e:
+        v.violation("build-rdevclose", {"kind": "build", "error": str(e), "log": e.log[-2000:]}, no_input=True)
+        return {"built": False}
+    out = {}
+    try:
+        p = subprocess.run([exe], input="\n".join(kinds) + "\n", capture_output=True, text=True, env=build.env(), timeout=120)
+        lines, rc, err = p.stdout.splitlines(), p.returncode, p.stderr
+    except subprocess.TimeoutExpired as e:
+        lines, rc, err = ((e.stdout or b"").decode() if isinstance(e.stdout, bytes) else (e.stdout or "")).splitlines(), -999, "timeout: a device did not stop / a close did not return"
+    want = {"busy_front": 4, "busy_back": 4, "result": 20, "front": 7, "back": 7, "get": 7, "lclose": 12}
+    seen = set()
+    for l in lines:
+        m = re.match(r"devclose (\w+) fwd=(\w+) (.*)", l)
+        if not m:
+            continue
+        kind = m.group(1)
+        seen.add(kind)
+        vals = dict(kv.split("=") for kv in m.group(3).split())
+        bad = {k: int(vals.get(k, -1)) for k, w in want.items() if int(vals.get(k, -1)) != w}
+        out[kind] = "ok" if not bad and m.group(2) == "ok" else f"fwd={m.group(2)} {bad}"
+        if bad:
+            v.violation(f"devclose-{kind}", {"kind": "after a device was cancelled its sockets (or the handles derived from them) are not invalid / "
+                        "were not owned while it ran (REAL, inproc)", "ops": [kind], "harness": "harness/r_devclose.c", "observed": l,
+                        "expected": "busy_front=4 busy_back=4 result=20 front=7 back=7 get=7 lclose=12"})
+    if rc != 0 or seen != set(kinds):
+        v.violation("devclose-crash", {"kind": "device close scenario crashed, hung or did not complete (REAL, inproc)",
+                    "ops": [k for k in kinds if k not in seen][:1] or kinds, "rc": rc, "stderr": err[-2000:], "output": lines[-5:]})
     return out
